@@ -76,10 +76,10 @@ extern long mpt_buffer_set(MPT_STRUCT(buffer) *buf, const MPT_STRUCT(type_traits
 			return MPT_ERROR(BadType);
 		}
 	}
-	/* terminate overlapping target data */
+	/* terminate overlapping target data, elements after new data are kept */
 	if (fini) {
-		size_t off;
-		for (off = pos; off < used; off += elem_size) {
+		size_t off, max = (end < used) ? end : used;
+		for (off = pos; off < max; off += elem_size) {
 			fini(ptr + off);
 		}
 	}
@@ -119,12 +119,12 @@ extern long mpt_buffer_set(MPT_STRUCT(buffer) *buf, const MPT_STRUCT(type_traits
 			}
 			/* fall back to generic init */
 			else if (init(ptr + pos, 0) < 0) {
-				/* invalidate remaining data as result of fatal error */
+				/* invalidate remaining data as result of fatal error,
+				 * overlapping elements are already terminated */
 				buf->_used = pos;
 				if (fini) {
-					while (pos < used) {
+					for (pos = end; pos < used; pos += elem_size) {
 						fini(ptr + pos);
-						pos += elem_size;
 					}
 				}
 				return count;
